@@ -135,10 +135,15 @@ _reg("count_dec_bonds num_dec_bonds", "int", _n(D.dec_bonds))
 _reg("major_index", "int", D.major_index)
 _reg("depth", "int", D.depth)
 _reg("maximal_decreasing_run", "int", D.maximal_decreasing_run)
-_reg("longestruns_ascending", "runs", lambda p: D.longest_runs(p, True))
-_reg("longestruns_descending", "runs", lambda p: D.longest_runs(p, False))
-_reg("length_of_longestrun_ascending", "int", lambda p: D.longest_runs(p, True)[0])
-_reg("length_of_longestrun_descending", "int", lambda p: D.longest_runs(p, False)[0])
+def _runs(p, asc):
+    # cubic definitional form up to length 12, the (cross-checked) quadratic form for long shapes
+    return D.longest_runs(p, asc) if len(p) <= 12 else D.longest_runs_long(p, asc)
+
+
+_reg("longestruns_ascending", "runs", lambda p: _runs(p, True))
+_reg("longestruns_descending", "runs", lambda p: _runs(p, False))
+_reg("length_of_longestrun_ascending", "int", lambda p: _runs(p, True)[0])
+_reg("length_of_longestrun_descending", "int", lambda p: _runs(p, False)[0])
 _reg("cycle_decomp", "cycles", _cyc_norm)
 _reg("count_cycles num_cycles", "int", lambda p: len(D.cycles(p)))
 _reg("is_involution", "bool", D.is_involution)
@@ -290,8 +295,9 @@ def table_entries(PS):
 # --------------------------------------------------------------------------------------------
 
 HEAVY = ("holeyness", "threepats", "fourpats", "Holeyness of a permutation")
-# brute-force enumerations in the library (all subsets / all 3- and 4-subsets): no shape-dependent
-# shortcut, and 2/3 of the cost at length 9 - left out at the top length of the thorough tier only
+# brute-force enumerations in the library (all subsets / all 3- and 4-subsets).  They were once
+# left out at length 9 for cost - exactly where an unsound pruning of the subset search first
+# shows (seeded C11-g) - so nothing is left out any more (skip_heavy is always False).
 
 
 def shard_perms(shard):
@@ -335,6 +341,125 @@ def shard_perms(shard):
             part.add(1, 1 if r != 0 else 0)
             part.outcomes.add((name, r))
     return part, payload
+
+
+# --------------------------------------------------------------------------------------------
+# scale: inputs ABOVE the exhaustive bound.
+#   slice     every permutation of length n whose first entry is n//2 (1/n of S_n), the methods
+#             whose library implementation is a search / iteration that could be pruned (SEARCH)
+#   extremal  ref_c11.holey_extremal(n): the extremal structure of the subset-search statistic
+#   shapes    ref_c11.scale_shapes(n) at lengths straddling runtime thresholds (8/9, 32/33,
+#             256/257): every polynomial method; exponential ones while affordable
+# Same oracle (check_method / check_table_entry) as everywhere else.
+# --------------------------------------------------------------------------------------------
+
+SEARCH = ("holeyness", "threepats", "fourpats", "min_gapsize", "count_stack_sorts",
+          "count_pop_stack_sorts", "order", "cycle_decomp", "count_cycles", "count_bounces",
+          "maximal_decreasing_run", "count_inversions", "rtlmax_ltrmin_decomposition",
+          "longestruns_ascending", "longestruns_descending")
+HOLEY_MAX = 13          # 2**n subsets in the library
+FOURPATS_MAX = 12       # n**4
+THREEPATS_MAX = 34      # n**3
+LONG_STEPS = (1, 2, 3, 7, 8, 9, 31, 32, 33, 255, 256, 257, 258)
+
+
+def scale_names(n, kind):
+    names = list(SEARCH) if kind == "slice" else sorted(METHODS)
+    drop = set()
+    if n > HOLEY_MAX:
+        drop |= {"holeyness", "Holeyness of a permutation"}
+    if n > FOURPATS_MAX:
+        drop.add("fourpats")
+    if n > THREEPATS_MAX:
+        drop.add("threepats")
+    return [nm for nm in names if nm not in drop], drop
+
+
+def scale_args(name, n):
+    if name in STEP_METHODS and n > 12:
+        return [()] + [(k,) for k in sorted(set(LONG_STEPS) | {n - 1, n}) if 1 <= k <= n]
+    return arg_sets(name, n)
+
+
+def scale_perms(kind, n, lo, hi):
+    if kind == "slice":
+        first = n // 2
+        rest = [v for v in range(n) if v != first]
+        return [("first entry %d" % first, (first,) + q)
+                for q in itertools.islice(itertools.permutations(rest), lo, hi)]
+    fam = D.holey_extremal(n) if kind == "extremal" else D.scale_shapes(n)
+    return fam[lo:hi]
+
+
+def shard_scale(shard):
+    kind, n, lo, hi, do_table = shard
+    Perm, PS = _lib()
+    part = Partial()
+    names, drop = scale_names(n, kind)
+    entries = [e for e in table_entries(PS) if e[1] not in drop] if do_table else []
+    perms = scale_perms(kind, n, lo, hi)
+    for label, p in perms:
+        for name in names:
+            if n < MIN_LEN.get(name, 0):
+                continue
+            for args in scale_args(name, n):
+                exp = check_method(part, Perm, p, name, args)
+                part.add(1, 1 if nontrivial_value(exp) else 0)
+        for i, name, func in entries:
+            r = D.FUNC[name](p)
+            d = D.DEVIATION[name](p) if name in D.DEVIATION else r
+            check_table_entry(part, Perm, PS, p, name, func, r, d)
+            part.add(1, 1 if r != 0 else 0)
+        part.bump("scale-perms:%s:%d" % (kind, n))
+    if perms and lo == 0:
+        label, p = perms[len(perms) // 2]
+        part.sample({"scale": kind, "n": n, "label": label,
+                     "perm": p if n <= 16 else list(p[:8]) + ["..."],
+                     "inversions": len(D.inversions(p)),
+                     "holeyness": D.holeyness(p) if n <= HOLEY_MAX else None}, cap=1)
+    return part
+
+
+_REFVAL = {}
+
+
+def refval(name, p, which=0):
+    """reference (which=0) / deviation-model (which=1) value of a table statistic, memoised"""
+    key = (name, p, which)
+    v = _REFVAL.get(key)
+    if v is None:
+        f = D.DEVIATION[name] if (which and name in D.DEVIATION) else D.FUNC[name]
+        v = _REFVAL[key] = f(p)
+    return v
+
+
+def shard_scale_tools(shard):
+    """preserved_in for every table statistic that is polynomial, on bijections between LONG
+    permutations (statistic values far above 256): p -> reverse / complement / inverse of p over
+    the whole shape family of one length."""
+    n, symname = shard
+    Perm, PS = _lib()
+    part = Partial()
+    _, drop = scale_names(n, "shapes")
+    fam = D.scale_shapes(n)
+    pairs = [(p, R.apply_sym(symname, p)) for _, p in fam]
+    bij = {Perm(k): Perm(v) for k, v in pairs}
+    got, exp = set(), [set(), set()]
+    ents = [e for e in table_entries(PS) if e[1] not in drop]
+    case = {"tool": "preserved_in", "scale_n": n, "sym": symname,
+            "label": "sym:%s on scale_shapes(%d)" % (symname, n)}
+    for i, name, _f in ents:
+        try:
+            if PS.get_by_index(i).preserved_in(bij):
+                got.add(name)
+        except Exception as exc:  # noqa
+            part.violation("scale", dict(case, stat=name), {"exception": repr(exc)})
+        for w in (0, 1):
+            if all(refval(name, k, w) == refval(name, v, w) for k, v in pairs):
+                exp[w].add(name)
+    attribute(part, "scale", case, got, exp[0], exp[1], lambda e: (e,))
+    part.add(len(ents), 1 if 0 < len(exp[0]) < len(ents) else 0)
+    return part
 
 
 def chunks(n, per):
@@ -872,7 +997,7 @@ def run(ctx, only=None):
         for n in range(0, top + 1):
             for lo, hi in chunks(n, per[n]):
                 shards.append((n, lo, hi, want("methods"), want("table"),
-                               want("methods") and n <= 5, n <= ntools, n >= 9))
+                               want("methods") and n <= 5, n <= ntools, False))
         # shards are listed shortest permutations first (simplest counterexample first)
         payloads = ctx.pmap(shard_perms, shards)
         for pl in payloads:
@@ -880,11 +1005,48 @@ def run(ctx, only=None):
                 VEC[p] = (ref, dev)
         ctx.bounds["methods"] = {
             "perm_lengths": "0..%d (all %d permutations)" % (top, sum(math.factorial(k) for k in range(top + 1))),
-            "left_out_at_length_9": list(HEAVY) if top >= 9 else [],
             "methods": len(METHODS), "step_sizes": "None and 1..n for descents/ascents (8 methods)",
             "second_call_on_same_object": "lengths 0..5"}
         ctx.bounds["table"] = {"perm_lengths": "0..%d" % top, "entries": len(table_entries(PS))}
         ctx.section("methods+table", evaluations=ctx.evals, perms=sum(math.factorial(k) for k in range(top + 1)))
+
+    # ---- scale: above the exhaustive bound --------------------------------------------------------
+    if want("scale"):
+        e0 = ctx.evals
+        shards = []
+        slice_n = 9 if quick else 10
+        per_slice = 630 if quick else 2520
+        for lo in range(0, math.factorial(slice_n - 1), per_slice):
+            shards.append(("slice", slice_n, lo, lo + per_slice, False))
+        ext_sizes = (9, 10, 11, 12) if quick else (9, 10, 11, 12, 13)
+        for n in ext_sizes:
+            m = len(D.holey_extremal(n))
+            per = {9: 64, 10: 50, 11: 40, 12: 30, 13: 20}[n]
+            for lo in range(0, m, per):
+                shards.append(("extremal", n, lo, min(m, lo + per), n <= 11))
+        sizes = (7, 8, 9, 10, 11, 12, 31, 32, 33, 34, 255, 256, 257, 258) + (() if quick else (300,))
+        for n in sizes:
+            m = len(D.scale_shapes(n))
+            per = 32 if n <= 12 else (16 if n <= 34 else 4)
+            for lo in range(0, m, per):
+                shards.append(("shapes", n, lo, min(m, lo + per), True))
+        ctx.pmap(shard_scale, shards)
+        tool_sizes = (33, 257) if quick else (9, 33, 257, 300)
+        ctx.pmap(shard_scale_tools, [(n, sym) for n in tool_sizes
+                                     for sym in ("reverse", "complement", "inverse", "rot90")])
+        ctx.bounds["scale"] = {
+            "slice": "all %d permutations of length %d with first entry %d x %d search-type methods %s"
+                     % (math.factorial(slice_n - 1), slice_n, slice_n // 2, len(SEARCH), list(SEARCH)),
+            "extremal": "ref_c11.holey_extremal(n) for n in %s (%s permutations): all methods; table "
+                        "entries for n <= 11" % (list(ext_sizes), [len(D.holey_extremal(n)) for n in ext_sizes]),
+            "shapes": "ref_c11.scale_shapes(n) for n in %s (%d permutations): all methods and table "
+                      "entries; holeyness for n <= %d, fourpats n <= %d, threepats n <= %d; step sizes "
+                      "None, %s, n-1, n beyond length 12"
+                      % (list(sizes), sum(len(D.scale_shapes(n)) for n in sizes), HOLEY_MAX,
+                         FOURPATS_MAX, THREEPATS_MAX, list(LONG_STEPS)),
+            "tools": "preserved_in of every polynomial table statistic on p -> reverse / complement / "
+                     "inverse / rot90 of p over scale_shapes(n), n in %s" % (list(tool_sizes),)}
+        ctx.section("scale", evaluations=ctx.evals - e0)
 
     # ---- convenience constructors -------------------------------------------------------------
     if want("table"):
@@ -1084,6 +1246,11 @@ def replay(ctx, rec):
                               case["dim"])
             else:
                 run_bij_case(part, case["label"], case["pairs"], (case["tool"],))
+            if _first(ctx, part, case, rec.get("signature")):
+                break
+    elif sub == "scale":
+        for _ in range(T):
+            part = shard_scale_tools((case["scale_n"], case["sym"]))
             if _first(ctx, part, case, rec.get("signature")):
                 break
     elif sub == "custom":
